@@ -181,6 +181,9 @@ type Prop[C any] struct {
 	// WriteAhead: write every case to disk before running it, so that a fatal
 	// error of the process (stack overflow) still leaves a replayable case.
 	WriteAhead bool
+	// ConfirmTries: how many times a failing case is re-run before it is declared unconfirmed (default 1; more for
+	// properties about run-to-run variation, where the failure itself depends on map iteration order)
+	ConfirmTries int
 	// Extra runs after the rapid campaign (exhaustive enumerations etc.); it
 	// reports failures through the returned error and a case to save.
 	Extra func(r *Rec, cfg Config) (*C, error)
@@ -267,7 +270,11 @@ func Main[C any](t *testing.T, p Prop[C]) {
 			return
 		}
 		rec.Confirm = true
-		if err := safeCheck(p, c, rec); err != nil {
+		err = safeCheck(p, c, rec)
+		for try := 1; err == nil && try < p.ConfirmTries; try++ {
+			err = safeCheck(p, c, rec)
+		}
+		if err != nil {
 			kind := "violation"
 			if _, ok := err.(*Inconclusive); ok {
 				kind = "inconclusive"
@@ -334,6 +341,10 @@ func Main[C any](t *testing.T, p Prop[C]) {
 					r2 := NewRec()
 					r2.Confirm = true
 					err := safeCheck(p, *lastFail, r2)
+					for try := 1; err == nil && try < p.ConfirmTries; try++ {
+						// the property is about run-to-run variation: one silent re-run does not refute the failure
+						err = safeCheck(p, *lastFail, r2)
+					}
 					switch e := err.(type) {
 					case nil:
 						path := saveReplay(cfg, p.ID, *lastFail, lastFailMsg, "-unconfirmed")
